@@ -136,6 +136,9 @@ pub enum Mutation {
     /// re-compress the inner layer with a block size of BLOCK + 1 + extra: every brotli stream but the last
     /// inflates to more than the documented block size
     OverlongBlock { extra: u16 },
+    /// the chosen compressed block starts with a brotli 'large window' header (window of 2^bits bytes)
+    /// followed by `tail`: RFC 7932 streams never do, the writer uses a 4 MiB window
+    LargeWindow { block: u8, bits: u8, tail: [u8; 4] },
 }
 
 #[derive(Clone, Copy, Debug, PartialEq, Eq, Hash, Serialize, Deserialize)]
@@ -358,6 +361,24 @@ pub fn build_input(c: &Case) -> (Vec<u8>, Vec<x25519_dalek::StaticSecret>, Vec<S
                                 let mut inner = d.inner[..fstart].to_vec();
                                 inner.extend_from_slice(&refimpl::write_footer(&entries));
                                 bytes = reencode_from_inner(&d, &inner);
+                            }
+                        }
+                    }
+                    Mutation::LargeWindow { block, bits, tail } => {
+                        if d.layers & 2 != 0 {
+                            if let Ok((si, _)) = refimpl::parse_sizes_info(&d.comp_layer) {
+                                if !si.compressed_sizes.is_empty() {
+                                    let b = *block as usize % si.compressed_sizes.len();
+                                    let start: usize = si.compressed_sizes[..b].iter().map(|x| *x as usize).sum();
+                                    let mut cl = d.comp_layer.clone();
+                                    let hdr = [0x11u8, (bits % 64) | (tail[0] << 6), tail[1], tail[2], tail[3]];
+                                    for (i, x) in hdr.iter().enumerate() {
+                                        if start + i < cl.len() {
+                                            cl[start + i] = *x;
+                                        }
+                                    }
+                                    bytes = reencode_from_comp(&d, &cl);
+                                }
                             }
                         }
                     }
@@ -621,6 +642,7 @@ fn mutation() -> impl Strategy<Value = Mutation> {
         1 => Just(Mutation::DropMarker),
         1 => Just(Mutation::DupMarker),
         2 => (if SCALED { 0u16..2000 } else { 0u16..60000 }).prop_map(|extra| Mutation::OverlongBlock { extra }),
+        2 => (any::<u8>(), prop_oneof![Just(30u8), Just(28), Just(25), 10u8..31], any::<[u8; 4]>()).prop_map(|(block, bits, tail)| Mutation::LargeWindow { block, bits, tail }),
     ]
 }
 fn op() -> impl Strategy<Value = Op> {
